@@ -36,7 +36,7 @@ var exoticLeaves = []string{
 	"map[string]error", "func(R) (R, error)", "chan R", "struct{}", "map[string]struct{}", "NI", "**int", "***R", "[]*[]*int", "CmpIface",
 	"struct{ error }", "struct{ E error }", "sync.Mutex", "*sync.Mutex", "atomic.Int64", "[2][2]int", "map[[2]int][]R",
 	// named types that refer to themselves without a struct in between
-	"SL", "SL2", "SM", "SM2", "SP", "SP2", "SA", "SLP", "SLP2", "SF", "SC", "SI", "MA", "MB", "GR[int]", "struct{ L SL; M SM }",
+	"SL", "SL2", "SM", "SM2", "SP", "SP2", "SA", "SLP", "SLP2", "SF", "SC", "SI", "MA", "MB", "GR[int]", "struct{ L SL; M SM }", "SK", "SK2", "SKA",
 	"struct{ A Inner; B Inner }", "struct{ A R; B R; C *R }", "struct{ A G[int]; B G[int] }",
 }
 
@@ -68,6 +68,9 @@ type SI interface{ M() SI }
 type MA []MB
 type MB map[string]MA
 type GR[T any] []GR[T]
+type SK map[*SK]bool
+type SK2 map[*SK2]bool
+type SKA map[[1]*SKA]*SKA
 `
 
 func fixExotic(t string) string {
